@@ -114,7 +114,7 @@ func Gen(seed uint64, tier string) any {
 	if core.Chance(r, 20) {
 		sc.Alg = strings.ToUpper(sc.Alg[:6]) + sc.Alg[6:]
 	}
-	sc.Fudge = core.Pick(r, 300, 300, 5, 1, 2, 3600)
+	sc.Fudge = core.Pick(r, 300, 300, 5, 1, 2, 3600, 3601, 7200, 65535) // (the field has 16 bits; what it says is the window, however wide)
 	sc.EpochS = core.Pick(r, 0, 1, 86400*365*15)
 	if sc.Kind == "session" {
 		sc.Strategy = r.IntN(kernel.NumStrats)
@@ -172,7 +172,7 @@ func Gen(seed uint64, tier string) any {
 		} else if sc.Transport == "tcp" && core.Chance(r, 55) {
 			nf := 1 + r.IntN(2)
 			for i := 0; i < nf; i++ {
-				op := common.FrameOp{Dir: core.Pick(r, "c2s", "s2c"), Env: r.IntN(n), Kind: core.Pick(r, "flip", "flip", "unsign", "wrongkey", "nokey", "parentkey", "delay", "dup", "reflect")}
+				op := common.FrameOp{Dir: core.Pick(r, "c2s", "s2c"), Env: r.IntN(n), Kind: core.Pick(r, "flip", "flip", "unsign", "wrongkey", "nokey", "parentkey", "delay", "dup", "reflect", "otherform")}
 				if op.Kind == "reflect" {
 					op.Dir = "s2c"
 				}
